@@ -265,7 +265,10 @@ func publicAPISuite() hlib.Suite {
 			vrt.Infra("temp dir: " + err.Error())
 		}
 		defer os.RemoveAll(dir)
-		for _, prof := range []string{"none", "cpuprofile", "memprofile", "both"} {
+		// "gateway": PROMETHEUS_PUSH_GATEWAY names a gateway no push can reach (the URL does not
+		// even parse, so nothing touches the network): a failed push is reported, it is not one of
+		// the causes of a failed run
+		for _, prof := range []string{"none", "cpuprofile", "memprofile", "both", "gateway"} {
 			for _, outcome := range []string{"all-pass", "one-fails", "setup-fails", "teardown-fails", "dropped", "dropped-ignored"} {
 				for _, mf := range []uint64{0, 2} {
 					if !r.Mine() {
@@ -288,6 +291,10 @@ func publicAPISuite() hlib.Suite {
 						args = append(args, "--memprofile", filepath.Join(dir, "mem.prof"))
 					}
 					input := "f1.New().Add(s).ExecuteWithArgs: " + strings.Join(args, " ") + " [" + outcome + "]"
+					if prof == "gateway" {
+						os.Setenv("PROMETHEUS_PUSH_GATEWAY", "http://no such gateway:9091/")
+						input += " with an unreachable PROMETHEUS_PUSH_GATEWAY"
+					}
 					r.SampleCase(input)
 					var gotErr error
 					var s, f, d uint64
@@ -314,6 +321,7 @@ func publicAPISuite() hlib.Suite {
 						})
 						gotErr = fw.ExecuteWithArgs(args)
 					}, 60*time.Second, 0)
+					os.Unsetenv("PROMETHEUS_PUSH_GATEWAY")
 					if out.Status != vrt.StOK {
 						r.Fail("C08/cli-broken", "f1.ExecuteWithArgs", out.Status.String()+": "+out.Crash+out.Detail, input)
 						continue
@@ -331,7 +339,7 @@ func publicAPISuite() hlib.Suite {
 						if got {
 							kind = "error-but-should-pass"
 						}
-						r.Fail("C08/cli-exit-status", kind+"/f1.ExecuteWithArgs/profiling="+map[bool]string{true: "on", false: "off"}[prof != "none"], fmt.Sprintf("ExecuteWithArgs returned %v; the run had %d successful, %d failed, dropped=%v, %s: the documented rule says failed=%v", gotErr, s, f, d > 0, outcome, want), input)
+						r.Fail("C08/cli-exit-status", kind+"/f1.ExecuteWithArgs/"+map[bool]string{true: "push-gateway-unreachable", false: "profiling=" + map[bool]string{true: "on", false: "off"}[prof != "none"]}[prof == "gateway"], fmt.Sprintf("ExecuteWithArgs returned %v; the run had %d successful, %d failed, dropped=%v, %s: the documented rule says failed=%v", gotErr, s, f, d > 0, outcome, want), input)
 					}
 					r.Distinct(fmt.Sprintf("%s %s mf=%d", prof, outcome, mf))
 				}
@@ -355,9 +363,7 @@ limits:
   max-duration: 5s
   concurrency: 1
   max-iterations: %d
-  max-failures: %d
-  max-failures-rate: %d
-  ignore-dropped: %v
+%s  ignore-dropped: %v
 stages:
   - duration: 5s
     mode: constant
@@ -368,12 +374,13 @@ stages:
 // tolerances come from the config document's limits instead of flags.
 func cliFileSuite(full bool) hlib.Suite {
 	return hlib.Suite{Name: fmt.Sprintf("cli-exit-status-file-mode/full=%v", full), Weight: 2, Run: func(r *hlib.Rec) {
-		mfs := []uint64{0, 1, 2}
-		rates := []int{0, 33, 50}
+		// -1: the key is left out of the limits section (it then means 0), for each key separately
+		mfs := []int{-1, 0, 1, 2}
+		rates := []int{-1, 0, 33, 50}
 		maxN := 2
 		if full {
 			maxN = 3
-			rates = []int{0, 1, 33, 50, 99}
+			rates = []int{-1, 0, 1, 33, 50, 99}
 		}
 		dir, err := os.MkdirTemp("", "c08file")
 		if err != nil {
@@ -388,8 +395,15 @@ func cliFileSuite(full bool) hlib.Suite {
 				}
 				for _, drops := range []bool{false, true} {
 					for _, ign := range []bool{false, true} {
-						for _, mf := range mfs {
-							for _, mfr := range rates {
+						for _, mfKey := range mfs {
+							for _, mfrKey := range rates {
+								mf, mfr, tolerances := uint64(max(mfKey, 0)), max(mfrKey, 0), ""
+								if mfKey >= 0 {
+									tolerances += fmt.Sprintf("  max-failures: %d\n", mfKey)
+								}
+								if mfrKey >= 0 {
+									tolerances += fmt.Sprintf("  max-failures-rate: %d\n", mfrKey)
+								}
 								if !r.Mine() {
 									continue
 								}
@@ -401,11 +415,11 @@ func cliFileSuite(full bool) hlib.Suite {
 								if drops {
 									rate = "2/100ms"
 								}
-								doc := fmt.Sprintf(cliFileYAML, ns+nf, mf, mfr, ign, rate)
+								doc := fmt.Sprintf(cliFileYAML, ns+nf, tolerances, ign, rate)
 								if err := os.WriteFile(path, []byte(doc), 0o600); err != nil {
 									vrt.Infra("write config: " + err.Error())
 								}
-								input := fmt.Sprintf("f1 run file config.yaml with limits max-iterations=%d max-failures=%d max-failures-rate=%d ignore-dropped=%v, one constant stage %s, %d passing then %d failing iterations", ns+nf, mf, mfr, ign, rate, ns, nf)
+								input := fmt.Sprintf("f1 run file config.yaml with limits max-iterations=%d max-failures=%d max-failures-rate=%d (-1: key omitted) ignore-dropped=%v, one constant stage %s, %d passing then %d failing iterations", ns+nf, mfKey, mfrKey, ign, rate, ns, nf)
 								r.SampleCase(input)
 								res := hlib.RunCLIScenario([]string{"file", "-v", path}, 60*time.Second, func(t *f1testing.T) f1testing.RunFn {
 									return func(t *f1testing.T) {
